@@ -243,12 +243,28 @@ pub fn false_claims(p: &MapProofM, r: &RefNode, path: &str, out: &mut Vec<String
     }
 }
 
+fn uncommitted_key_shape(k: &KeyM, s: &MapProofM, master: &TreeCtx) -> String {
+    let (a, b) = k.pair();
+    if master.leaves.contains(&refs::map_leaf(&refs::key_bytes(a, b), s.root())) {
+        "sub-proof filed under a key that is not committed (key||root concatenated without separator)".to_string()
+    } else {
+        "sub-proof under a key that is not committed and not linked to any committed master leaf".to_string()
+    }
+}
+
 /// shape of the first accepted false claim (for the violation signature)
 fn witness_shape(p: &MapProofM, r: &RefNode, level: &str) -> Option<String> {
     let tree = match r {
         RefNode::Tree(t) => t,
         RefNode::Map(m) => &m.master,
     };
+    if level != "master proof" && p.root() != r.root() {
+        let (mut o, mut t) = (vec![], 0);
+        false_claims(p, r, "", &mut o, &mut t);
+        if !o.is_empty() {
+            return Some("sub-proof whose root is not the committed root of its key (sub-proof not linked to the master proof)".to_string());
+        }
+    }
     if !tree.false_claims(&p.master_proof).is_empty() {
         return Some(format!("{level}: {}", mk::witness_shape(tree, &p.master_proof)));
     }
@@ -264,7 +280,7 @@ fn witness_shape(p: &MapProofM, r: &RefNode, level: &str) -> Option<String> {
                     let (mut o, mut t) = (vec![], 0);
                     all_false(s, "", &mut o, &mut t);
                     if !o.is_empty() {
-                        return Some("sub-proof filed under a key that is not committed (key||root concatenated without separator)".to_string());
+                        return Some(uncommitted_key_shape(k, s, &m.master));
                     }
                 }
             },
@@ -667,7 +683,7 @@ fn witness_shape_top(m: &MapProofM, top: &MapCtx) -> Option<String> {
                 let (mut o, mut t) = (vec![], 0);
                 all_false(s, "", &mut o, &mut t);
                 if !o.is_empty() {
-                    return Some("sub-proof filed under a key that is not committed (key||root concatenated without separator)".to_string());
+                    return Some(uncommitted_key_shape(k, s, &top.master));
                 }
             }
         }
